@@ -19,7 +19,7 @@ pub fn run(ctx: &Ctx) -> (Report, Meta) {
     .floor("stops_with_other_events_in_same_step", 20)
     .floor("stops_with_t_eval", 60);
     let n = ctx.size(80_000, 5_000_000);
-    let g = GenOpts { allow_max_step: true, bidirectional_problems: true, max_span: 30.0, ..Default::default() };
+    let g = GenOpts { stiff_for_implicit: true, allow_max_step: true, bidirectional_problems: true, max_span: 30.0, ..Default::default() };
     let rep = par_for(n, "C10", |i, rep| {
         let case_id = format!("pair/{}", i);
         if !ctx.want(&case_id) {
